@@ -54,6 +54,7 @@ structure Srv where
   now : Int := 0
   docs : List (Text × List PkgInfo) := []
   tasks : List Task := []
+  faults : List (Text × Char) := []   -- read operations that fail: (package name or "*", 'L' | 'T' | 'V')
 deriving Repr
 
 namespace Server
@@ -67,8 +68,14 @@ def matcherOf (reg : String) : Option Matcher :=
   | "go_proxy" => some Go.matcher
   | _ => none
 
+/-- does read `site` on package `name` fail (a store that "starts failing after start-up")? -/
+def failing (s : Srv) (name : Text) (site : Char) : Bool :=
+  s.faults.contains (name, site) || s.faults.contains (['*'], site)
+
 def readsOf (s : Srv) (k : Key) : Reads :=
-  ⟨some (Cache.getLatestVersion s.ccfg s.db k), fun t => some (Cache.getDistTag s.db k t), some (Cache.getVersions s.db k)⟩
+  ⟨if failing s k.name 'L' then none else some (Cache.getLatestVersion s.ccfg s.db k),
+   fun t => if failing s k.name 'T' then none else some (Cache.getDistTag s.db k t),
+   if failing s k.name 'V' then none else some (Cache.getVersions s.db k)⟩
 
 /-- `generate_diagnostics` for an already parsed package list -/
 def diagnose (s : Srv) (reg : String) (pkgs : List PkgInfo) : List Diag :=
@@ -176,7 +183,7 @@ def codeAction (s : Srv) (uri : Text) (line ch : Nat) : Option (List Action) :=
         else match Bump.findAtPosition pkgs line ch with
           | none => none
           | some p =>
-            let acts := Bump.bumpActions (some (Cache.getVersions s.db ⟨reg.toList, p.name⟩)) p
+            let acts := Bump.bumpActions (readsOf s ⟨reg.toList, p.name⟩).versions p
             if acts.isEmpty then none else some acts
 
 /-- the start-up background refresh for one registry: stale, unmarked packages are claimed and requested -/
